@@ -44,6 +44,11 @@ def sources(tier, seed, ctx):
             for big in (False, True):
                 srcs.append({'fn': 'sub', 'n': n, 'm': m, 'big': big, 'gen': (n + m) % 2 == 0, 'host': _h(rng) if (n + m) % 2 else None})
                 srcs.append({'fn': 'subc', 'n': n, 'm': m, 'big': big, 'host': _h(rng, 0.3)})
+    # operands beyond 32 / 64 bits (sampled operand values; judged on bit sequences)
+    for n, m in ([(33, 33), (64, 64), (65, 40), (20, 70)] if tier == 'quick' else [(31, 31), (32, 32), (33, 33), (63, 64), (64, 64), (65, 40), (20, 70), (100, 100)]):
+        for big in (False, True):
+            srcs.append({'fn': 'sub', 'n': n, 'm': m, 'big': big, 'gen': True, 'host': None})
+            srcs.append({'fn': 'subc', 'n': n, 'm': m, 'big': big, 'host': None})
     for n in range(1, (4 if tier == 'quick' else 5) + 1):
         for big in (False, True):
             srcs.append({'fn': 'divmod', 'n': n, 'big': big, 'gen': True, 'host': None})
